@@ -101,7 +101,7 @@ def run_spec(ctx, rep, spec, model, only=None):
     nf = len(names)
     has_species = any(re.search(r"^Y\(.+\)$", f) for f in names)
     nontriv = nf % 2 == 1 or not has_species or len(spec["levels"]) >= 2 or spec["data"]["mode"] == "bits"
-    tools = ["minuterie", "menu", "menu-mm", "menu-finest", "menu-desc", "menu-has", "marinate"]
+    tools = ["minuterie", "menu", "menu-mm", "menu-finest", "menu-mm-finest", "menu-mm-desc", "menu-desc", "menu-has", "marinate"]
     reqs = []
     for tool in tools:
         if only is not None and tool != only:
@@ -133,9 +133,11 @@ def run_spec(ctx, rep, spec, model, only=None):
                     got = [w for l in sbody.split("\n") if l and not l.startswith("+") for w in l.split()]
                     if got != sp:
                         rep.fail(f"species listing {got} != {sp}", case)
-            elif tool in ("menu-mm", "menu-finest"):
-                out = run_main(menucli, ["menu", path, "-m"] if tool == "menu-mm" else ["menu", path, "-f"])
-                bad, order = check_minmax(rep, case, out, P, tool == "menu-finest")
+            elif tool in ("menu-mm", "menu-finest", "menu-mm-finest", "menu-mm-desc"):
+                flags = {"menu-mm": ["-m"], "menu-finest": ["-f"], "menu-mm-finest": ["-m", "-f"], "menu-mm-desc": ["-d", "-m"]}[tool]
+                out = run_main(menucli, ["menu", path] + flags)
+                # "finest when asked": -f alone or together with -m
+                bad, order = check_minmax(rep, case, out.split("Fields found in file:")[0], P, "-f" in flags)
                 for b in bad[:2]:
                     rep.fail(b, case)
                 if not bad and model:
